@@ -210,12 +210,16 @@ def parseXOp (n : Nat) (t : String) : Option XOp :=
       match rest.drop k with
       | [pd, pb, pq, l] => some (.dotPt (nat! d) ((rest.take k).map nat!) (pt! pd pb pq) ((l.splitOn "_").map (parsePt n (pt! pd pb pq))))
       | _ => none
+    | ["rot", d, a, k] => some (.rot (nat! d) (nat! a) (int! k))
+    | ["rot_assign", d, k] => some (.rotAssign (nat! d) (int! k))
+    | ["conj", d, a] => some (.conj (nat! d) (nat! a))
+    | ["conj_assign", d] => some (.conjAssign (nat! d))
     | _ => none
 
 def XOp.dstSlot : XOp → Nat
   | .lin op => LOp.dstSlot op
   | .mul d _ _ | .mulAssign d _ | .square d _ | .squareAssign d | .mulPt d _ _ _ | .mulPtAssign d _ _
-  | .addMany d _ | .dotCt d _ _ | .dotPt d _ _ _ => d
+  | .addMany d _ | .dotCt d _ _ | .dotPt d _ _ _ | .rot d _ _ | .rotAssign d _ | .conj d _ | .conjAssign d => d
 
 def showDstX (p : DPool) : XOp → String
   | .lin op => showDst p op
@@ -224,19 +228,19 @@ def showDstX (p : DPool) : XOp → String
 /-- the data-path run: outcome and metadata from the data model itself (`dstep` / `xstep`; its metadata transition is
 the one of `stepR`), continuing after `Err` with the pool the failed call leaves (linear fragment; after an `Err` of a
 multiplication or composite the limbs are not compared any more: `#?`) -/
-def runData (env : Env) (N : Nat) (mk : MulKey) : DPool → List String → List String → List String
+def runData (env : Env) (N : Nat) (mk : MulKey) (ak : AutKeys) : DPool → List String → List String → List String
   | _, [], acc => acc.reverse
   | pool, t :: rest, acc =>
     match parseXOp N t with
     | none => ("bad-op" :: acc).reverse
     | some op =>
-      match xstep env N mk pool op with
-      | .ok p => runData env N mk p rest (("ok@" ++ showPool p.cts ++ "#" ++ showDstX p op) :: acc)
+      match xstep env N mk ak pool op with
+      | .ok p => runData env N mk ak p rest (("ok@" ++ showPool p.cts ++ "#" ++ showDstX p op) :: acc)
       | .err e =>
         match op with
         | .lin lop =>
           let p := dstepErrPool env N pool lop
-          runData env N mk p rest (("err:" ++ e ++ "@" ++ showPool p.cts ++ "#" ++ showDst p lop) :: acc)
+          runData env N mk ak p rest (("err:" ++ e ++ "@" ++ showPool p.cts ++ "#" ++ showDst p lop) :: acc)
         | _ => (("err:" ++ e ++ "@" ++ "#?") :: acc).reverse
       | .panic c => (("panic:" ++ c) :: acc).reverse
 
@@ -261,7 +265,16 @@ def handle (ts : List String) : String :=
     let n := kvNat ts "n"
     let dpool : DPool := (pool.zip (d.splitOn "/")).map (fun (c, s) => ⟨parseG env.base2k n c.size s, c.md⟩)
     let mk : MulKey := ⟨kvNat ts "big" == 1, parseKey n ((kv ts "key").getD "")⟩
-    "|".intercalate (runData env n mk dpool ops [])
+    -- `atk=k:p:<key>;…` rotation keys (index, Galois element, key), `ctk=p:<key>` the conjugation key
+    let toKey (p : Int) (g : Core.GGLWE) : Ks.Key := { base2k := g.base2k, dsize := g.dsize, p := p, mat := g.toPMat }
+    let rot : List (Int × Ks.Key) := (((kv ts "atk").getD "").splitOn ";").filterMap (fun e =>
+      match e.splitOn "~" with
+      | [k, p, body] => some (int! k, toKey (int! p) (parseKey n body))
+      | _ => none)
+    let conj : Option Ks.Key := match ((kv ts "ctk").getD "").splitOn "~" with
+      | [p, body] => some (toKey (int! p) (parseKey n body))
+      | _ => none
+    "|".intercalate (runData env n mk ⟨rot, conj⟩ dpool ops [])
   | none => "|".intercalate (runAll env pool ops [])
 
 end Drv.Ckks
